@@ -5,7 +5,7 @@
    INPUT of the site model: what the rules mean is C13's subject. *)
 From Coq Require Import NArith List Bool Arith.
 From PydoctorVerif Require Import Base.Sexp Model.SiteTable Model.Site Model.SitePinned Gen.Listings
-     Spec.SiteSpec Proofs.SiteProofs Proofs.SiteWitness.
+     Spec.SiteSpec Proofs.SiteProofs Proofs.SiteWitness Model.SiteIR Gen.SiteCode Proofs.SiteIRProofs.
 Import ListNotations.
 
 (* Per run, on the skeleton regenerated from /repo: every listing filters on isVisible and iterates the collection
@@ -98,6 +98,22 @@ Theorem C12_main_module_rule_ignored : exists r i,
   existsb (fun e => Nat.eqb (e_obj e) i && N.eqb (e_prod e) P_module_index && e_private e)
           (site_entries cquote table_pinned r 1 false) = true.
 Proof. exists w_main, 1. exact (conj w_main_wf main_rule_ignored). Qed.
+
+(* ------------------------------------------------------------------ the tie to the source.
+   Gen/SiteCode.v holds the bodies of Documentable.privacyClass / Module.privacyClass / isVisible / isPrivate
+   (pydoctor/model.py) translated statement by statement from the CURRENT source (harness/gen/gen_c11_code.py,
+   fail-closed); interpreting them (Model/SiteIR.v) IS the hand-written model, for every well-formed registry. *)
+Theorem C12_code_privacy_class_is_model : forall quote r fuel i, 2 <= fuel -> valid r i ->
+  run_privacy quote site_code r fuel i = Val (VPriv (priv_of r i)).
+Proof. exact code_privacy_class. Qed.
+
+Theorem C12_code_is_visible_is_model : forall quote r, wf r -> forall fuel i, i + 3 < fuel -> valid r i ->
+  run_fn quote site_code r fuel FIsVisible i env0 = Val (VBool (visible r i)).
+Proof. exact code_is_visible. Qed.
+
+Theorem C12_code_is_private_is_model : forall quote r fuel i, 3 <= fuel -> valid r i ->
+  run_fn quote site_code r fuel FIsPrivate i env0 = Val (VBool (is_private r i)).
+Proof. exact code_is_private. Qed.
 
 (* non-vacuity: on the example registry (a PRIVATE method, a HIDDEN method that a docstring cross-references, a PRIVATE
    module) the hidden object has no listing entry and no link (the cross reference renders as plain text), the private
